@@ -2,11 +2,11 @@
 generated histories run through nsim; every build step is judged offline from the recorded trace."""
 import copy, json, random
 from . import simlib, gen, model, util, core
-from .simlib import all_outs
+from .simlib import all_outs, St
 
 
 def make_history(g, sc, rounds, allow_faults=True, allow_interrupt=True, allow_edit_running=True, change_kinds=None,
-                 manifest_changes=True):
+                 manifest_changes=True, nchg_choices=(1, 1, 1, 2, 3)):
     """-> (steps, meta) ; meta[i] = dict(kind=..., sc=<scenario snapshot valid for that step>)"""
     r = g.r
     steps, meta = [], []
@@ -23,7 +23,7 @@ def make_history(g, sc, rounds, allow_faults=True, allow_interrupt=True, allow_e
     add(first, kind="build", first=True)
     add(dict(first, sched={"mode": "prng", "seed": r.randint(1, 10 ** 6)}), kind="rebuild")
     for _ in range(rounds):
-        nchg = r.choice((1, 1, 1, 2, 3))
+        nchg = r.choice(nchg_choices)
         descs = []
         for _ in range(nchg):
             st, desc = g.change(cur, existing | set(o for s in cur["stmts"] for o in all_outs(s)) |
@@ -60,6 +60,148 @@ def make_history(g, sc, rounds, allow_faults=True, allow_interrupt=True, allow_e
             add(dict(b, sched={"mode": "prng", "seed": r.randint(1, 10 ** 6)}, faults={}, interrupt_at=-1, edits=[]),
                 kind="rebuild")
     return steps, meta
+
+
+def make_regen_history(g, sc, rounds):
+    """Histories with a manifest that ninja regenerates itself: `build build.ninja: r_regen config.txt` (generator).
+    The content of config.txt selects one of several variants of the graph (command lines changed, statements added
+    or removed); editing it makes the next invocation rebuild and reload the manifest before the real build.
+    -> (files, stmts table, steps, meta)"""
+    r = g.r
+    base = copy.deepcopy(sc)
+    base["sources"]["config.txt"] = "variant 0\n"
+    regen_map = {}
+    base["stmts"].append(St("regen", ["build.ninja"], ins=["config.txt"], kind="regen", generator=True,
+                            regen=regen_map, regen_from="config.txt"))
+    variants = [base]
+    union = {s["id"]: s for s in base["stmts"]}
+    nnew = 0
+    for v in range(1, r.randint(2, 3) + 1):
+        nv = copy.deepcopy(variants[-1])
+        for s in nv["stmts"]:
+            if s["kind"] == "regen":
+                s["regen"] = regen_map
+        cmds = [s for s in nv["stmts"] if s["kind"] == "cmd"]
+        for _ in range(r.randint(1, 2)):
+            k = r.choice(("ver", "ver", "add", "remove"))
+            if k == "ver" and cmds:
+                r.choice(cmds)["ver"] += 1
+            elif k == "add":
+                outs_avail = [o for s in cmds for o in s["outs"]]
+                src = "cn%d.c" % nnew
+                nid = "n%d" % nnew
+                nnew += 1
+                for vv in variants + [nv]:
+                    vv["sources"][src] = "// added source %s\n" % nid
+                st = St(nid, ["o/%s.o" % nid], ins=[src] + (r.sample(outs_avail, 1) if outs_avail and r.random() < 0.7 else []))
+                if r.random() < 0.3:
+                    st["restat"] = True
+                nv["stmts"].append(st)
+                union[nid] = st
+                if nv["defaults"]:
+                    nv["defaults"].append(st["outs"][0])
+            elif k == "remove":
+                users = set()
+                for s in nv["stmts"]:
+                    users |= set(s["ins"] + s["iins"] + s["oins"] + s["vals"])
+                    if s["dyndep"]:
+                        users.add(s["dyndep"])
+                leafs = [s for s in cmds if not any(o in users for o in all_outs(s)) and not s["dd"] and s["kind"] == "cmd"]
+                if leafs and len(cmds) > 1:
+                    victim = r.choice(leafs)
+                    nv["stmts"] = [s for s in nv["stmts"] if s is not victim]
+                    nv["defaults"] = [d for d in nv["defaults"] if d not in all_outs(victim)]
+                    cmds = [s for s in nv["stmts"] if s["kind"] == "cmd"]
+        nv["sources"]["config.txt"] = "variant %d\n" % v
+        variants.append(nv)
+    for v, vv in enumerate(variants):
+        regen_map["variant %d\n" % v] = simlib.render_manifest(vv)["build.ninja"]
+    usc = copy.deepcopy(base)
+    usc["stmts"] = [copy.deepcopy(x) for x in union.values()]
+    table = simlib.render_stmts(usc)
+    steps, meta = [], []
+    cur_v = 0
+    cur = copy.deepcopy(variants[0])
+
+    def add(step, **m):
+        steps.append(step)
+        m["sc"] = copy.deepcopy(cur)
+        meta.append(m)
+
+    def bstep():
+        b = g.build_step(cur)
+        if r.random() < 0.6:
+            b["targets"] = []
+        return b
+    first = bstep()
+    first["targets"] = []
+    add(first, kind="build", first=True)
+    add(dict(first, sched={"mode": "prng", "seed": r.randint(1, 10 ** 6)}), kind="rebuild")
+    existing = set(cur["sources"])
+    for _ in range(rounds):
+        descs = []
+        if r.random() < 0.8:
+            nvv = r.choice([x for x in range(len(variants)) if x != cur_v])
+            srcs_now = cur["sources"]
+            cur = copy.deepcopy(variants[nvv])
+            for p_, c_ in srcs_now.items():          # edits made so far stay
+                if p_ != "config.txt":
+                    cur["sources"][p_] = c_
+            cur_v = nvv
+            add({"op": "write", "path": "config.txt", "content": cur["sources"]["config.txt"]}, kind="change", desc=("config", nvv))
+            descs.append(("config", nvv))
+        if r.random() < 0.5 or not descs:
+            st, desc = g.change(cur, existing | set(o for s_ in cur["stmts"] for o in all_outs(s_)),
+                                kinds=["edit", "edit_hdr", "touch", "rm_out"])
+            for s_ in st:
+                add(s_, kind="change", desc=desc)
+            descs.append(desc)
+        b = bstep()
+        add(b, kind="build", changes=descs, regen=True)
+        add(dict(b, sched={"mode": "prng", "seed": r.randint(1, 10 ** 6)}), kind="rebuild")
+    files = dict(variants[0]["sources"])
+    for vv in variants:
+        for p_, c_ in vv["sources"].items():
+            files.setdefault(p_, c_)
+    files["config.txt"] = "variant 0\n"
+    files["build.ninja"] = regen_map["variant 0\n"]
+    return files, table, steps, meta
+
+
+def run_regen(ctx, focus, nscen, size_range=(2, 6), rounds=(2, 4), salt=7, feat=None):
+    rng = random.Random(ctx.seed * 7919 + {"C01": 1, "C02": 2, "C03": 3}.get(focus, 0) + salt * 104729)
+    scenarios, metas = [], {}
+    f = dict(dyndep=0.0, generator=0.0, phony=0.15)
+    f.update(feat or {})
+    for n in range(nscen):
+        g = gen.Gen(random.Random(rng.randint(0, 2 ** 60)), size=rng.randint(*size_range), feat=f)
+        sc = g.scenario("%s-%d-regen-%d" % (focus, ctx.seed, n))
+        files, table, steps, meta = make_regen_history(g, sc, rng.randint(*rounds))
+        # the config file is written before the manifest so that the manifest starts out up to date
+        ordered = {p_: c_ for p_, c_ in files.items() if p_ != "build.ninja"}
+        ordered["build.ninja"] = files["build.ninja"]
+        scn = {"id": sc["id"], "files": ordered, "stmts": table, "steps": steps}
+        scenarios.append(scn)
+        metas[scn["id"]] = meta
+    judge = HistoryJudge(ctx, focus)
+
+    def handler(scn, results, err):
+        if results is None:
+            ctx.inconclusive += 1
+            ctx.count("nsim_died")
+            return
+        try:
+            regens = sum(1 for res in results if res.get("op") == "build"
+                         for ev in res.get("trace", {}).get("events", []) if ev.get("e") == "REGEN")
+            ctx.count("manifest_regenerations_observed", regens)
+            judge.judge(scn, metas[scn["id"]], results)
+        except Exception:
+            import traceback
+            traceback.print_exc()
+            ctx.inconclusive += 1
+            ctx.count("judge_exceptions")
+    simlib.run_scenarios(scenarios, handler)
+    return scenarios
 
 
 def default_targets(sc):
@@ -125,6 +267,9 @@ class HistoryJudge:
                 ctx.count("invalid_scenarios")
                 return
             targets = step["targets"] or default_targets(sc)
+            # ninja brings a manifest that is itself a build output up to date first, whatever was asked for
+            regen_outs = [o for s_ in sc["stmts"] if s_["kind"] == "regen" for o in s_["outs"]]
+            targets = list(targets) + [o for o in regen_outs if o not in targets]
             started = [ev["o"] for ev in events if ev["e"] == "S"]
             started_ids = {graph.producer[o]["id"] for o in started if o in graph.producer}
             ok = result.get("exit") == 0
